@@ -46,6 +46,20 @@ CHECKS["C13"] = dict(
     note="Trusted: Coq kernel incl. vm_compute on the generated word list and byte sweeps; ExtrOcamlBasic + driver with primitive lookup tables; Go harness and its independent reference (list copy checked by sha256 and six official vectors); word-list translator. SHA-256/PBKDF2/NFKD are outside the property (values recorded from crypto/*). No axioms. Known finding seed:passphrase-not-nfkd; re-spaced mnemonic seed repaired (f149051).",
     technique="Coq proof (big-integer = bit-string equivalence, acceptance iff, round trip) + extracted-model differential correspondence with primitive oracle tables + independent reference implementation",
 )
+CHECKS["C02"] = dict(
+    category="proof",
+    text="Coq model of coin selection (eligibility filter, top-K heap, greedy optOutputs), size/fee estimation, the automatic fee loop with its dust-change adjustment, fee-share subtraction, the manual path and the reservation set, with 18 theorems: conservation, eligible and duplicate-free inputs, exact outputs and change rule, fee bounds, termination with a proved fuel bound, success/insufficiency with explicit slack (and a refutation of the sharp iff), disjoint consecutive drafts, manual-path ownership and no-duplicate (repaired). Tied to the code by ~62k isolated selector/fee cases and ~850 create calls per quick run on real wallets whose coins come from chain histories; each returned transaction is compared with the extracted model and judged by the extracted Coq predicate against the wallet's own UTXO report.",
+    design_ref="DESIGN.md section 5, C02",
+    note="Trusted: Coq kernel (no axioms), ExtrOcamlBasic + driver, Go harness (sim/hist, tx_verif.go exports); the harness tells the model what each explicit input refers to; size constants and K are compared with the compiled values on every run; node mempool empty; reservation expiry (wall clock) not modelled. Known finding auto-insufficient-within-dust-slack; duplicate explicit inputs repaired (3588e0f).",
+    technique="Coq proof (arithmetic invariants of selection and the fee fixed point, heap correctness, fuel bound) + extracted-model differential correspondence + extracted property predicate evaluated on real transactions",
+)
+CHECKS["C12"] = dict(
+    category="proof",
+    text="Coq model of address issuing (gap window of nextAddresses, NewAddress/CreateAddress), the address records (PutNewAddress/AddCredits/Rollback), the GetAddresses merge and the import discovery scan, with 20 theorems over all histories and gap limits: next-index freshness and durability across restart, strictly increasing indexes, used flag = chain payment through reorgs, the exact refusal condition, discovery completeness under monotone usage, refutation witnesses for the two known findings and for the repaired index collision. Tied to the code by replaying generated histories (issue/pay/reorg/restart/restore with hints, gap limits 2,3,5,20) on the real wallet and on the extracted model and by replaying the Coq witnesses on the real wallet.",
+    design_ref="DESIGN.md section 5, C12",
+    note="Trusted: Coq kernel (no axioms), ExtrOcamlBasic + driver (chain bookkeeping, predicates), Go harness (sim node with script-hash index, its own key derivation of the script-hash table); key derivation enters through an injectivity premise; hdkeychain.Child assumed never to return ErrInvalidChild; announcements synchronous. Known findings listing-lost-after-reorged-first-payment, discovery-after-reorged-first-payment; index collision repaired (314e4a7).",
+    technique="Coq proof (invariants by induction over histories, scan completeness induction, closed witnesses) + extracted-model differential correspondence on real WalletManager histories",
+)
 NOT_YET = "not claimed yet in this round: model and correspondence under construction (see DESIGN.md section 9 for the order)"
 
 def main():
